@@ -26,7 +26,27 @@ def local(frame, event, arg):
     global count, fired
     if event == "line":
         count += 1
-        if signame != "NONE" and not fired and count == k:
+        if signame == "PAUSE" and not fired and count == k:
+            # preemption: the process stops here until the harness lets it go on
+            fired = True
+            import json
+            import time
+
+            log = os.environ.get("XV_LOG")
+            me = os.environ.get("XV_PROC", "?")
+
+            def say(e):
+                fd = os.open(log, os.O_WRONLY | os.O_APPEND | os.O_CREAT, 0o644)
+                os.write(fd, (json.dumps({"e": e, "p": me, "k": k}) + "\n").encode())
+                os.close(fd)
+
+            say("paused")
+            resume = os.environ.get("XV_RESUME")
+            t0 = time.time()
+            while not os.path.exists(resume) and time.time() - t0 < 120:
+                time.sleep(0.005)
+            say("resumed")
+        elif signame not in ("NONE", "PAUSE") and not fired and count == k:
             fired = True
             log = os.environ.get("XV_LOG")
             if log:
